@@ -1146,12 +1146,14 @@ func (vm *VM) xOpCallCompiled(cfunc *CompiledFunction, numArgs, flags int) error
 		}
 	}
 
-	frame := &(vm.frames[vm.frameIndex])
-	vm.frameIndex++
-
-	if vm.frameIndex > frameSize-1 {
+	// claim the frame only if there is room for it: a stack overflow that is
+	// caught by the caller must leave the frame index untouched.
+	if vm.frameIndex+1 > frameSize-1 {
 		return ErrStackOverflow
 	}
+
+	frame := &(vm.frames[vm.frameIndex])
+	vm.frameIndex++
 
 	frame.fn = cfunc
 	frame.freeVars = cfunc.Free
